@@ -3,7 +3,7 @@
 
 use crate::hist::{dispatch, history_strategy, CaseInfo, HistParams, History, Obs, Violation};
 use crate::runner::{Check, Ctx, Tier};
-use proptest::strategy::{BoxedStrategy, Strategy};
+use proptest::prelude::*;
 
 pub struct C16;
 impl Check for C16 {
@@ -31,7 +31,7 @@ impl Check for C16 {
         tier.pick(2400, 24000)
     }
     fn strategy(tier: Tier) -> BoxedStrategy<History> {
-        history_strategy(HistParams {
+        let general = history_strategy(HistParams {
             max_steps: tier.pick(9, 20),
             max_entries: tier.pick(30, 80),
             bulk_n: tier.pick(700, 3000),
@@ -42,8 +42,13 @@ impl Check for C16 {
             overlay_weight: 20,
             witness_weight: 0.0,
             ext4_weight: 4,
-        })
-        .boxed()
+        });
+        // one case in 48: a bottom-level branch node walked through its capacity byte by byte (hist::bbn_fill_strategy)
+        if std::env::var_os("VERIF_ONLY_FAMILY").is_some() {
+            // development aid: only the forced shape
+            return crate::hist::bbn_fill_strategy(2).boxed();
+        }
+        prop_oneof![47 => general, 1 => crate::hist::bbn_fill_strategy(2)].boxed()
     }
     fn run(case: &History, ctx: &Ctx) -> Result<CaseInfo, Violation> {
         let obs = Obs {
